@@ -44,6 +44,18 @@ func VerifC08(nThin, withBackground, sendBuffer int) {
 		bg = fsNewCall(ckRPC, 2, 0)
 		go bg.run(w, w.cfg)
 	}
+	if withBackground == 3 {
+		// meanwhile a node is being added to the manager (AddNode, or a configuration naming a
+		// new address) whose blocking dial hangs for longer than anybody's deadline
+		ph := w.net.addPeer(9, true)
+		ph.hang = true
+		go func() {
+			if n, err := NewRawNodeWithID(ph.addr, 9); err == nil {
+				_ = w.mgr.AddNode(n)
+			}
+		}()
+		vReach("node-being-added")
+	}
 	kind := vChoice("calltype", ckN)
 	if withBackground == 1 && (kind == ckAsync || kind == ckCorrectable || kind == ckCorrStream) {
 		vAssume(false) // the queue-behind-a-stuck-write scenario: blocking call types and no-send-waiting one-way calls
